@@ -11,6 +11,7 @@ import (
 	"github.com/rs/zerolog"
 
 	"github.com/coreruleset/crs-toolchain/v2/context"
+	"github.com/coreruleset/crs-toolchain/v2/regex"
 	"github.com/coreruleset/crs-toolchain/v2/regex/processors"
 )
 
@@ -87,6 +88,65 @@ func BoundedFormat(in string) string {
 	}
 	if len(a) > 0 {
 		return "a line was lost: " + a[len(a)-1]
+	}
+	return ""
+}
+
+// BoundedUpdateCompare (C11, C12): a rules file built from these line tokens in which rule
+// 123456 (offset 0) can be addressed. After updateRegex with a regex that itself contains
+// operator-like and terminator-like text: readCurrentRegex returns exactly that regex, a second
+// update changes nothing, every other line is byte-identical, and compare says "unchanged"
+// exactly for the stored operand (one changed byte => error).
+//@ directive[C11,C12] bounded BoundedUpdateCompare quick=4 thorough=5 tokens="SecRule A \"@rx old\" \\\n" "SecRule B \"!@rx o\\\"@rx x\" \\ \r\n" "    \"id:123456,\\\n" "    \"id:999999,\\\n" "# c\n" "    t:none\"\n" "\n"
+
+func BoundedUpdateCompare(in string) string {
+	zerolog.SetGlobalLevel(zerolog.Disabled)
+	lines := strings.Split(in, "\n")
+	// precondition of the property (and of the functions, which are fatal otherwise): the
+	// first line carrying id:123456 exists, is not the first line, and the line before it
+	// has an @rx operand
+	target := -1
+	for i, l := range lines {
+		if strings.Contains(l, "id:123456") {
+			target = i - 1
+			break
+		}
+	}
+	if target < 0 || !regex.RuleRxRegex.MatchString(lines[target]) {
+		return ""
+	}
+	for _, newRegex := range []string{`a|b`, `x\"@rx y\" \z`, `$1${2}`} {
+		p := boundedFile("r.conf", in)
+		updateRegex(p, "123456", 0, newRegex)
+		after, _ := os.ReadFile(p)
+		got := readCurrentRegex(p, "123456", 0)
+		if got != newRegex {
+			return "after update with " + newRegex + " the stored operand reads back as " + got
+		}
+		al := strings.Split(string(after), "\n")
+		if len(al) != len(lines) {
+			return "number of lines changed"
+		}
+		for i := range lines {
+			if i != target && al[i] != lines[i] {
+				return "line " + lines[i] + " was changed to " + al[i]
+			}
+		}
+		m := regex.RuleRxRegex.FindStringSubmatch(lines[target])
+		if al[target] != m[1]+newRegex+m[3] || !strings.HasPrefix(lines[target], m[1]) || !strings.HasSuffix(lines[target], m[3]) {
+			return "addressed line became " + al[target]
+		}
+		updateRegex(p, "123456", 0, newRegex)
+		again, _ := os.ReadFile(p)
+		if string(again) != string(after) {
+			return "second update is not a no-op"
+		}
+		if err := compareRegex("123456", newRegex, got); err != nil {
+			return "compare reports a change right after update"
+		}
+		if err := compareRegex("123456", newRegex+"x", got); err == nil {
+			return "compare misses a one-byte difference"
+		}
 	}
 	return ""
 }
